@@ -328,6 +328,13 @@ def check(prop, tier, seed, budget=None):
         "known_findings_hit": list(known_hits.keys()),
     }
     if cfg.get("extra_coverage"): ev["coverage"].update(cfg["extra_coverage"](res))
+    try:
+        import apicensus
+        c = apicensus.census(prop)
+        ev["coverage"]["api_census"] = {"what": "public functions of the source files this property is anchored in: called in-process by the harness / translated into Lean / neither (tools/apicensus.py; a function no generator touches is outside the correspondence)",
+            "public_functions": c["public_functions"], "called_by_harness": c["called_by_harness"], "translated": c["translated"], "not_exercised": c["not_exercised"]}
+    except Exception as e:
+        ev["coverage"]["api_census"] = {"error": str(e)}
     json.dump(ev, open(os.path.join(OUTDIR, "evidence", prop + ".json"), "w"), indent=1)
     if status == 0:
         print(f"OK property={prop} tier={tier} obligations={discharged}/{obligations} cases={res.n} nontrivial={len(res.nontrivial)} wall={ev['wall_s']}s")
